@@ -385,7 +385,22 @@ def run_case(case):
         clone = wbs.clone()
         cm = list(clone.tasks)
         if [t.id for t in members] != [t.id for t in cm]:
-            raise OffGrid('clone order differs')   # C10's business; the scheduler model needs it
+            # The scheduler model needs the clone in the order of the input (that clone() keeps it is C10's business), so
+            # the case cannot be compared with the model.  One clause needs no model: the schedule that calc returns has
+            # the ids, hierarchy and sibling order of the input (C06) - calc is run for that alone.
+            probs = None
+            try:
+                kw0 = {'resources': list(supplied.values()), 'balance_resources': case['balance']}
+                s0 = ForwardScheduler(start=from_us(case['pbound']), **kw0) if fwd else BackwardScheduler(end=from_us(case['pbound']), **kw0)
+                signal.signal(signal.SIGALRM, _alarm)
+                signal.alarm(20)
+                try:
+                    probs = shape_problems(wbs, s0.calc(wbs).schedule)
+                finally:
+                    signal.alarm(0)
+            except BaseException:  # noqa
+                pass
+            return {'offgrid': 'clone order differs', 'shape_only': probs}
         cix = {id(t): i for i, t in enumerate(cm)}
         mix = {id(t): i for i, t in enumerate(members)}
         # The abstract input describes the WBS THAT WAS HANDED TO calc: hierarchy and dependency links are read from
